@@ -72,6 +72,7 @@ type fake[T any] struct {
 	pos     int
 	stops   int
 	stopped bool
+	slow    time.Duration // sleep in every Next: a slow datastore read
 }
 
 func newFake[T any](items []T, errAt int) *fake[T] { return &fake[T]{items: items, errAt: errAt} }
@@ -98,6 +99,9 @@ func (f *fake[T]) cur(adv bool) (T, error) {
 
 // like the datastore iterators and storage.StaticIterator, the fake honours its caller's context
 func (f *fake[T]) Next(ctx context.Context) (T, error) {
+	if f.slow > 0 {
+		time.Sleep(f.slow)
+	}
 	if err := ctx.Err(); err != nil {
 		var zero T
 		return zero, err
@@ -183,6 +187,7 @@ type fakeDS struct {
 	mu    sync.Mutex
 	items []*openfgav1.Tuple
 	errAt int
+	slow  time.Duration
 	made  []*fake[*openfgav1.Tuple]
 }
 
@@ -190,6 +195,7 @@ func (d *fakeDS) mk() storage.TupleIterator {
 	d.mu.Lock()
 	defer d.mu.Unlock()
 	f := newFake(d.items, d.errAt)
+	f.slow = d.slow
 	d.made = append(d.made, f)
 	return f
 }
